@@ -507,6 +507,20 @@ func cmdCheck(args []string) int {
 			break
 		}
 		rec := classes[c]
+		if rec.Viol.Clause == "C19.d" {
+			// the differential run has its own schedule and its own replay command
+			dpath := strings.Replace(rec.Replay, "violation-", "abci-diff-", 1)
+			outb, _ := exec.Command(self, "abcidiff", dpath).CombinedOutput()
+			if strings.Contains(string(outb), "DISAGREEMENT") {
+				fmt.Printf("violation: %s [%s] %s\n", rec.Viol.Clause, rec.Viol.Class, rec.Viol.Detail)
+				violLines = append(violLines, fmt.Sprintf("VIOLATION property=%s replay=%s", *prop, dpath))
+				exit = 1
+			} else {
+				notes = append(notes, fmt.Sprintf("violation %s did not reproduce in a fresh process (%s)", c, dpath))
+				infra = true
+			}
+			continue
+		}
 		minPath := strings.Replace(rec.Replay, "violation-", "min-", 1)
 		path := rec.Replay
 		if rf, err := loadReplay(rec.Replay); err == nil {
@@ -988,4 +1002,11 @@ func cmdABCIDiff(args []string) int {
 	}
 	fmt.Printf("abcidiff: %d blocks identical on both executors\n", nb)
 	return 0
+}
+
+func init() {
+	// must run after the per-property init functions above (same file, declaration order)
+	for _, p := range []string{"C01", "C03", "C05", "C10", "C20"} {
+		expectedProbes[p] = append(expectedProbes[p], "lifecycle_alliance_delegation_on_validator_removed_by_staking")
+	}
 }
